@@ -37,4 +37,14 @@ man = {
     "notes": "All checks are solver-based: gosym symbolically executes harness functions (package rapid, /verif/harness) that call the real functions of /repo; see DESIGN.md.",
 }
 json.dump(man, open(os.path.join(VERIF, "MANIFEST.json"), "w"), indent=1)
+# guard: every harness file must type-check against /repo as it is (gosym drops files that do not, which
+# is meant for mutated trees; on the unchanged tree it would silently disable checks)
+import subprocess
+_g = os.path.join(VERIF, "bin", "gosym")
+if os.path.exists(_g):
+    _r = subprocess.run([_g, "-repo", "/repo", "-harness-dir", os.path.join(VERIF, "harness"), "-list"], capture_output=True, text=True,
+                        env=dict(os.environ, GOFLAGS="-mod=mod", GOPROXY="off", GOSUMDB="off", GOTOOLCHAIN="local"))
+    if _r.returncode != 0:
+        print("ERROR: harness files do not type-check against /repo:\n" + _r.stderr)
+        sys.exit(1)
 print("wrote MANIFEST.json with", len(checks), "checks,", len(man["not_applicable"]), "not applicable")
